@@ -204,12 +204,38 @@ func pickU(rng *rand.Rand, l ...uint64) uint64 { return l[rng.Intn(len(l))] }
 
 // customSpec: the minimal preset with randomised genesis parameters (and a few structural constants that
 // enter the genesis state: rounding constants, list limits of the empty body, vector lengths).
+// forksAtGenesis gives the spec pairwise different fork versions and schedules the first `k` later forks
+// (altair, bellatrix, capella, deneb) at epoch 0; the others at later epochs. zrnt's genesis is a phase0 state whatever
+// the schedule says: initialize_beacon_state_from_eth1 writes GENESIS_FORK_VERSION as previous AND current version.
+func forksAtGenesis(rng *rand.Rand, c *common.Spec, k int) {
+	vers := []*common.Version{&c.ALTAIR_FORK_VERSION, &c.BELLATRIX_FORK_VERSION, &c.CAPELLA_FORK_VERSION, &c.DENEB_FORK_VERSION,
+		&c.ELECTRA_FORK_VERSION}
+	for i, v := range vers {
+		rng.Read(v[:])
+		v[0] = byte(0x10 + i) // pairwise different, and different from a genesis version that starts with another byte
+	}
+	if c.GENESIS_FORK_VERSION[0] >= 0x10 && c.GENESIS_FORK_VERSION[0] <= 0x14 {
+		c.GENESIS_FORK_VERSION[0] = 0x77
+	}
+	epochs := []*common.Epoch{&c.ALTAIR_FORK_EPOCH, &c.BELLATRIX_FORK_EPOCH, &c.CAPELLA_FORK_EPOCH, &c.DENEB_FORK_EPOCH}
+	next := common.Epoch(0)
+	for i, e := range epochs {
+		if i >= k {
+			next += common.Epoch(1 + rng.Intn(3))
+		}
+		*e = next
+	}
+}
+
 func customSpec(rng *rand.Rand) *common.Spec {
 	c := cloneSpec(configs.Minimal)
 	c.MIN_GENESIS_ACTIVE_VALIDATOR_COUNT = view64(pickU(rng, 0, 1, 4, 8, 16, 33, 64, 100))
 	c.GENESIS_DELAY = common.Timestamp(pickU(rng, 0, 1, 300, 604800, 1<<40))
 	c.MIN_GENESIS_TIME = common.Timestamp(pickU(rng, 0, 1, 1578009600, 1606824000, 1<<41))
 	rng.Read(c.GENESIS_FORK_VERSION[:])
+	if rng.Intn(2) == 0 {
+		forksAtGenesis(rng, c, rng.Intn(5))
+	}
 	if rng.Intn(2) == 0 {
 		c.SLOTS_PER_EPOCH = common.Slot(pickU(rng, 4, 8, 16))
 	}
@@ -640,6 +666,35 @@ func gen(o hreg.Opts, w *bufio.Writer) error {
 				c.time = uint64(int64(spec.MIN_GENESIS_TIME) - int64(spec.GENESIS_DELAY) + int64(tdelta))
 				emit("custom", c)
 			}
+		}
+	}
+	// enough validators in total, but fewer fully funded (activated) ones than MIN_GENESIS_ACTIVE_VALIDATOR_COUNT:
+	// 12 funded + 6 at half balance against minima 12 (valid), 13 and 18 (invalid although 18 validators exist)
+	for _, min := range []uint64{12, 13, 18} {
+		spec := cloneSpec(configs.Minimal)
+		spec.MIN_GENESIS_ACTIVE_VALIDATOR_COUNT = view64(min)
+		c := genCase(rng, st, "eth1", spec, 18, true)
+		for i, d := range c.deps {
+			d.amount = uint64(spec.MAX_EFFECTIVE_BALANCE)
+			if i%3 == 2 {
+				d.amount /= 2
+			}
+		}
+		c = regen(rng, st, c)
+		c.label = fmt.Sprintf("underfunded-6-of-18-min-%d", min)
+		c.time = uint64(spec.MIN_GENESIS_TIME) // genesis time is late enough: the count decides
+		emit("custom", c)
+	}
+	// fork schedules with later forks already at epoch 0 (altair only; altair+bellatrix; all): the phase0 genesis state's
+	// fork field must not depend on the schedule
+	for _, k := range []int{1, 2, 4} {
+		for _, mode := range []string{"eth1", "kickstart", "kickstart-sigs"} {
+			spec := cloneSpec(configs.Minimal)
+			forksAtGenesis(rng, spec, k)
+			c := genCase(rng, st, mode, spec, 10+rng.Intn(8), true)
+			c.label = fmt.Sprintf("%s-forks-at-genesis-%d", c.label, k)
+			c.time = pickTime(rng, spec)
+			emit("custom", c)
 		}
 	}
 	total := o.Pick(110, 1500)
